@@ -6,14 +6,14 @@ import world
 
 def run(ctx):
     quick = ctx.tier == "quick"
-    sl = {"rate": world.SLICES["rate"], "model": world.SLICES["model"],
-          "pre": world.SLICES["pre"]}
+    sl = {"rate": world.SLICES["rate"], "rate2": world.SLICES["rate2"],
+          "model": world.SLICES["model"], "pre": world.SLICES["pre"]}
     curve_check.run_engine(
         ctx, "C09_", sl,
         n_random=60 if quick else 600, rand_len=24,
         rand_weights=dict(rate=6, fit=4, set=2, apply=2, scan=0.05),
         walk_limit=None if not quick else 150,
-        curves=("syn1", "syn2", "rec1"))
+        curves=("syn1", "syn2", "rec1", "syn3"))
     ctx.assumptions += [
         "expected value = standalone IndentationRater.rate(datasets=fresh "
         "fitted copy) through get_rater, compared bit-for-bit",
